@@ -598,6 +598,12 @@ def _call_builtin(I, st, f, name, args, kw, frame, node, where):
         v = args[0]
         if isinstance(v, Obj) and v.oid in st.cls:
             return [(st, ClassRef(st.cls[v.oid]))]
+    if name == 'set' and not args and not kw:
+        # an empty set that the code fills with add(): kept as an abstract sequence (membership, truthiness and iteration
+        # are what the package uses; a repeated element does not change any of them)
+        oid = st.new_oid('list', 'set@%s' % frame.fn.name)
+        st.seqs[oid] = ()
+        return [(st, Obj(oid))]
     if name in ('enumerate', 'zip', 'reversed', 'set', 'frozenset') and args:
         from .exprs import seq_elements
         try:
